@@ -71,7 +71,8 @@ def run_kani(prop, tier, config, patterns, jobs=16, harness_timeout='20m', reach
                                     '--harness-timeout', harness_timeout]
     if tier == 'quick' or not reach:
         # Kani's per-assertion reachability covers triple the run time (CBMC emits a trace per cover);
-        # the quick tier relies on the scenarios' own cover points, the thorough tier keeps both
+        # both tiers rely on the scenarios' own cover points (with the reach checks on, the thorough runs also made
+        # the Kani driver itself exceed the per-process memory cap while collecting the per-check output)
         cmd += ['--no-assertion-reach-checks']
     for p in patterns:
         cmd += ['--harness', p]
@@ -265,7 +266,7 @@ def run_e1(prop, tier, config, spec, parts, broken):
     if not insts:
         return None
     log('-- E1/Kani config=%s: %d harnesses' % (config, len(insts)))
-    r = run_kani(prop, tier, config, pats, jobs=spec.get('jobs', 16), reach=spec.get('thorough_reach', True), harness_timeout=spec.get('harness_timeout', '20m' if tier == 'quick' else '60m'))
+    r = run_kani(prop, tier, config, pats, jobs=spec.get('jobs', 16), reach=spec.get('thorough_reach', False), harness_timeout=spec.get('harness_timeout', '20m' if tier == 'quick' else '60m'))
     an = analyse_kani(r['json'])
     part = dict(engine='E1/kani', config=config, cmd=r['cmd'], wall_s=round(r['wall'], 1), harnesses={}, log=r['log'])
     parts.append(part)
